@@ -15,6 +15,23 @@ NA = {
 }
 
 
+# specifications grown beyond the listed properties (run as `python3 check/check.py <NAME> --tier quick|thorough`;
+# they are not registered as checks because they decide no single listed property)
+EXTRA_ENGINES = [
+    ("ISAAC", ["C03", "C04", "C06", "C08", "C11", "C38"],
+     "spec/ISAAC.tla: composed node + network specification; TLC exhaustive (2 nodes) and random behaviours (3 nodes; 4 nodes with a "
+     "Byzantine member); trace validation (ISAACTrace.tla) of in-process networks of real isaacstates.States; see check/isaac.md"),
+    ("HANDOVER", ["C08", "C09"],
+     "spec/Handover.tla + HandoverLock.tla: the handover X/Y broker protocol; TLC exhaustive with message loss/duplication/cancel; "
+     "behaviours replayed on and traces recorded from the real HandoverXBroker/HandoverYBroker; see check/handover.md"),
+    ("SYNCER", ["C14", "C15"],
+     "spec/Syncer.tla: implementation-level model of isaacstates.Syncer (what ISAAC.tla abstracts as SyncBlock); trace validation of the "
+     "real Syncer with BatchIsValidMaps/ImportBlocks under injected faults; see check/syncer.md"),
+    ("STUCK", ["C04"],
+     "spec/StuckResolver.tla: the ballot stuck resolver; trace validation of the real DefaultBallotStuckResolver; see check/stuck.md"),
+]
+
+
 def main():
     ids = [json.loads(l)["id"] for l in open(os.path.join(V, "properties.jsonl"))]
     checks, na = [], []
@@ -64,7 +81,9 @@ def main():
                                        "replayed into the real objects, recorded executions validated by TLC trace specs, "
                                        "TLC-chosen schedules forced through verif gates"}] +
                    [{"name": s, "path": "/verif/spec/" + s, "serves_properties": ps, "kind_free_text": "TLA+ module"}
-                    for s, ps in sorted(engines.items())],
+                    for s, ps in sorted(engines.items())] +
+                   [{"name": n, "path": "/verif/check/check.py", "serves_properties": ps, "kind_free_text": t}
+                    for n, ps, t in EXTRA_ENGINES],
         "checks": checks,
         "notes": "Verdicts come only from real-code behaviour; known findings are in /verif/known_findings.json. "
                  "exit 2 = machinery failure (no verdict).",
